@@ -64,6 +64,20 @@ func Key(info *types.Info, e ast.Expr) string {
 		return "*" + Key(info, x.X)
 	case *ast.BasicLit:
 		return x.Value
+	case *ast.BinaryExpr:
+		return "(" + Key(info, x.X) + x.Op.String() + Key(info, x.Y) + ")"
+	case *ast.UnaryExpr:
+		return x.Op.String() + Key(info, x.X)
+	case *ast.SliceExpr:
+		k := Key(info, x.X) + "["
+		if x.Low != nil {
+			k += Key(info, x.Low)
+		}
+		k += ":"
+		if x.High != nil {
+			k += Key(info, x.High)
+		}
+		return k + "]"
 	}
 	return fmt.Sprintf("<%T@%d>", e, e.Pos())
 }
